@@ -368,7 +368,12 @@ class SReal(_SNum):
         return hash(float(self))
 
     def __int__(self):
-        raise EngineError('int() of a symbolic real')
+        # int() truncates towards zero; the truncated value is an integer term that is then concretised
+        fl = z3.ToInt(self.e)
+        t = z3.If(self.e >= 0, fl, z3.If(z3.ToReal(fl) == self.e, fl, fl+1))
+        return _concretise(t, in_dunder=True)
+
+    __trunc__ = __int__
 
     def __floordiv__(self, o):
         raise EngineError('floor division of a symbolic real')
@@ -593,6 +598,10 @@ class _Ctx:
         self.representative_depth = 0
         self.fanout_hit = None
         self.prefix_sites = []
+        self.dead = False
+        self.unknown_as_feasible = False
+        self.abs = None
+        self.asolver = None
 
     def start(self, prefix):
         self.prefix = prefix
@@ -603,13 +612,26 @@ class _Ctx:
         self.abort_reason = None
         self.n_conc = 0
         self.solver.push()
+        if self.abs is not None:
+            self.asolver.push()
 
     def finish(self):
         self.solver.pop()
+        if self.abs is not None:
+            self.asolver.pop()
 
     def add(self, e):
         self.pc.append(e)
         self.solver.add(e)
+        if self.abs is not None:
+            self.asolver.add(self.abs(e))
+
+    def feasible(self, e):
+        """'sat' / 'unsat' / 'unknown' of pc and e. With an abstraction: decided on the abstracted formulas, where
+        'sat' only means "not shown infeasible" (the side is explored)."""
+        if self.abs is not None:
+            return check_sat(self.asolver, self.abs(e))
+        return check_sat(self.solver, e)
 
 
 def _site():
@@ -708,11 +730,17 @@ def _branch(e, in_dunder=False):
     if time.time() > ctx.deadline:
         _set_abort(ctx, 'time cap', in_dunder)
         return True
-    r_t = check_sat(ctx.solver, e)
-    r_f = check_sat(ctx.solver, z3.Not(e))
+    r_t = ctx.feasible(e)
+    r_f = ctx.feasible(z3.Not(e))
     if r_t == 'unknown' or r_f == 'unknown':
-        _set_abort(ctx, 'solver returned unknown on a branch', in_dunder)
-        return True
+        if not ctx.unknown_as_feasible:
+            _set_abort(ctx, 'solver returned unknown on a branch', in_dunder)
+            return True
+        # over-approximation: a side whose feasibility is unknown is explored (its path condition may be
+        # unsatisfiable, in which case every claim about it holds vacuously)
+        ctx.stats.unknown_branches = getattr(ctx.stats, 'unknown_branches', 0)+1
+        r_t = 'sat' if r_t == 'unknown' else r_t
+        r_f = 'sat' if r_f == 'unknown' else r_f
     ctx.pos += 1
     if r_t == 'sat' and r_f == 'sat':
         ctx.stats.decisions += 1
@@ -729,6 +757,11 @@ def _branch(e, in_dunder=False):
         ctx.trace.append(('f', False))
         ctx.sites.append(site)
         return False
+    if ctx.unknown_as_feasible:
+        # an earlier side of unknown feasibility turned out to be infeasible: drop this run silently
+        ctx.dead = True
+        _set_abort(ctx, 'dead path', in_dunder)
+        return True
     _set_abort(ctx, 'path condition unsatisfiable (engine error)', in_dunder)
     return True
 
@@ -845,7 +878,7 @@ class representative:
 
 
 def explore(fn, pre=(), max_paths=20000, fanout_cap=64, time_cap_s=120., query_timeout_ms=20000,
-            keep_exceptions=(Exception,)) -> Exploration:
+            keep_exceptions=(Exception,), unknown_as_feasible=False, abstract_fp=False) -> Exploration:
     """Run fn() (zero arguments; builds its own fresh state and runs the real code on symbolic values) once per
     feasible decision sequence. pre: z3 constraints on the symbolic inputs (asserted before the code runs)."""
     global _CTX
@@ -855,6 +888,12 @@ def explore(fn, pre=(), max_paths=20000, fanout_cap=64, time_cap_s=120., query_t
     ex.pre = list(pre)
     t0 = time.time()
     ctx = _Ctx(list(pre), max_paths, fanout_cap, t0+time_cap_s, query_timeout_ms)
+    ctx.unknown_as_feasible = unknown_as_feasible or abstract_fp
+    if abstract_fp:
+        ctx.abs = FPAbstraction()
+        ctx.asolver = z3.Solver()
+        ctx.asolver.set('timeout', query_timeout_ms)
+        ctx.asolver.add(*[ctx.abs(c) for c in pre])
     ctx.solver.add(*pre)
     if check_sat(ctx.solver) != 'sat':
         ex.status = 'inconclusive: precondition unsatisfiable'
@@ -885,6 +924,9 @@ def explore(fn, pre=(), max_paths=20000, fanout_cap=64, time_cap_s=120., query_t
                 kind, exc = 'exc', x
             finally:
                 ctx.finish()
+            if ctx.dead:
+                ctx.dead = False
+                continue
             if ctx.abort_reason is not None:
                 ex.status = f'inconclusive: {ctx.abort_reason}'
                 break
@@ -970,3 +1012,181 @@ def deep_expr_eq(sym, conc):
 
 def model_int(model, e):
     return _const_of(model.eval(z3val(e), model_completion=True))
+
+
+# ----------------------------------------------------------------------------------------------------------------------
+# IEEE floating point (z3 FloatingPoint theory): the same real code is run on SFloat values so that rounding is part
+# of the encoding. All arithmetic is round-to-nearest-even like CPython doubles. The width is a parameter of the
+# harness (Float64 = what users run; Float32 / Float16 as reduced-width lemmas when Float64 does not finish).
+
+
+def _fp_sort_of(e):
+    return e.sort()
+
+
+class SFloat:
+    __slots__ = ('e',)
+    __array_priority__ = 1000
+
+    def __init__(self, e):
+        self.e = e
+
+    @staticmethod
+    def _rm():
+        return z3.RNE()
+
+    def _lift(self, o):
+        if isinstance(o, SFloat):
+            if o.e.sort() != self.e.sort():
+                raise EngineError('mixed floating-point widths')
+            return o.e
+        if isinstance(o, (bool, np.bool_)):
+            o = int(o)
+        if isinstance(o, (int, np.integer, float, np.floating)):
+            return z3.FPVal(float(o), self.e.sort())
+        if isinstance(o, (SInt, SReal)):
+            c = _const_of(_simp(o.e))
+            if c is not None:
+                return z3.FPVal(float(c), self.e.sort())
+            raise EngineError('mixing symbolic int/real with symbolic float')
+        return None
+
+    def _bin(self, o, f, rev=False):
+        if isinstance(o, np.ndarray):
+            return NotImplemented
+        b = self._lift(o)
+        if b is None:
+            return NotImplemented
+        a = self.e
+        if rev:
+            a, b = b, a
+        return SFloat(_simp(f(a, b)))
+
+    def __add__(self, o): return self._bin(o, lambda a, b: z3.fpAdd(self._rm(), a, b))
+    def __radd__(self, o): return self._bin(o, lambda a, b: z3.fpAdd(self._rm(), a, b), True)
+    def __sub__(self, o): return self._bin(o, lambda a, b: z3.fpSub(self._rm(), a, b))
+    def __rsub__(self, o): return self._bin(o, lambda a, b: z3.fpSub(self._rm(), a, b), True)
+    def __mul__(self, o): return self._bin(o, lambda a, b: z3.fpMul(self._rm(), a, b))
+    def __rmul__(self, o): return self._bin(o, lambda a, b: z3.fpMul(self._rm(), a, b), True)
+
+    def _div(self, o, rev=False):
+        b = self._lift(o)
+        if b is None:
+            return NotImplemented
+        a = self.e
+        if rev:
+            a, b = b, a
+        # CPython raises ZeroDivisionError for float division by zero
+        z = _fold(z3.fpIsZero(b))
+        if z is True or (isinstance(z, SBool) and bool(z)):
+            raise ZeroDivisionError('float division by zero')
+        return SFloat(_simp(z3.fpDiv(self._rm(), a, b)))
+
+    def __truediv__(self, o): return self._div(o)
+    def __rtruediv__(self, o): return self._div(o, True)
+    def __neg__(self): return SFloat(_simp(z3.fpNeg(self.e)))
+    def __pos__(self): return self
+    def __abs__(self): return SFloat(_simp(z3.fpAbs(self.e)))
+
+    def _cmp(self, o, f, ne=False):
+        if isinstance(o, np.ndarray):
+            return NotImplemented
+        b = self._lift(o)
+        if b is None:
+            return ne
+        return _fold(f(self.e, b))
+
+    def __lt__(self, o): return self._cmp(o, z3.fpLT)
+    def __le__(self, o): return self._cmp(o, z3.fpLEQ)
+    def __gt__(self, o): return self._cmp(o, z3.fpGT)
+    def __ge__(self, o): return self._cmp(o, z3.fpGEQ)
+    def __eq__(self, o): return self._cmp(o, z3.fpEQ)
+    def __ne__(self, o): return self._cmp(o, lambda a, b: z3.Not(z3.fpEQ(a, b)), True)
+
+    def __bool__(self):
+        return bool(self != 0.)
+
+    def __float__(self):
+        raise EngineError('float() of a symbolic float (no concretisation of IEEE values)')
+
+    def __hash__(self):
+        raise EngineError('hash() of a symbolic float')
+
+    def __format__(self, spec):
+        return f'<{self.e}>'
+
+    def __repr__(self):
+        return f'SFloat({self.e})'
+
+    __str__ = __repr__
+
+    def __deepcopy__(self, memo):
+        return self
+
+    def __copy__(self):
+        return self
+
+
+_FP_SORTS = {16: z3.Float16, 32: z3.Float32, 64: z3.Float64}
+
+
+def sym_float(name, bits=64):
+    return SFloat(z3.FP(name, _FP_SORTS[bits]()))
+
+
+def fp_model_value(model, e):
+    """Python float of a z3 FP term under a model (exact for <= 64 bit)"""
+    import struct
+    v = model.eval(e, model_completion=True)
+    if z3.is_fp(v):
+        if z3.simplify(z3.fpIsNaN(v)).__bool__() if False else z3.is_true(z3.simplify(z3.fpIsNaN(v))):
+            return float('nan')
+        bv = z3.simplify(z3.fpToIEEEBV(v))
+        n = bv.as_long()
+        bits = v.sort().ebits()+v.sort().sbits()
+        if bits == 64:
+            return struct.unpack('>d', n.to_bytes(8, 'big'))[0]
+        if bits == 32:
+            return struct.unpack('>f', n.to_bytes(4, 'big'))[0]
+        if bits == 16:
+            return struct.unpack('>e', n.to_bytes(2, 'big'))[0]
+    raise EngineError(f'not an FP value: {v}')
+
+
+__all__ += ['SFloat', 'sym_float', 'fp_model_value']
+
+
+class FPAbstraction:
+    """Replaces every application of an FP arithmetic operator (add, sub, mul, div, neg, abs, fma, ...) by a fresh FP
+    constant - the same term by the same constant. An over-approximation of the terms' values: `unsat` of a query over
+    abstracted formulas implies `unsat` of the original; `sat` means nothing."""
+    _ARITH = None
+
+    def __init__(self):
+        if FPAbstraction._ARITH is None:
+            FPAbstraction._ARITH = {
+                z3.Z3_OP_FPA_ADD, z3.Z3_OP_FPA_SUB, z3.Z3_OP_FPA_MUL, z3.Z3_OP_FPA_DIV, z3.Z3_OP_FPA_NEG,
+                z3.Z3_OP_FPA_ABS, z3.Z3_OP_FPA_FMA, z3.Z3_OP_FPA_REM, z3.Z3_OP_FPA_SQRT,
+                z3.Z3_OP_FPA_ROUND_TO_INTEGRAL, z3.Z3_OP_FPA_MIN, z3.Z3_OP_FPA_MAX}
+        self.memo = {}
+        self.keep = []
+        self.n = 0
+
+    def __call__(self, e):
+        k = e.get_id()
+        if k in self.memo:
+            return self.memo[k]
+        if z3.is_app(e) and e.num_args() > 0:
+            if z3.is_fp(e) and e.decl().kind() in self._ARITH:
+                r = z3.FP(f'abs!{self.n}', e.sort())
+                self.n += 1
+            else:
+                r = e.decl()(*[self(a) for a in e.children()])
+        else:
+            r = e
+        self.memo[k] = r
+        self.keep.append(e)
+        return r
+
+
+__all__ += ['FPAbstraction']
